@@ -335,6 +335,30 @@ class FiniteEval:
                 else:
                     env[tgt.id] = val
             return
+        if isinstance(s, ast.Assign) and len(s.targets) == 1 and isinstance(s.targets[0], (ast.Tuple, ast.List)) and all(isinstance(e, ast.Name) for e in s.targets[0].elts) \
+                and not any(e.id in self.counters for e in s.targets[0].elts):
+            # a, b = helper(x): the helper's tuple is taken apart
+            v = self.ev(s.value, env)
+            if isinstance(v, tuple) and not (v and isinstance(v[0], str) and v[0] in ('tok', 'num', 'cnt', 'obj', 'array', 'elem', 'attrof')) and len(v) == len(s.targets[0].elts):
+                for tgt, val in zip(s.targets[0].elts, v):
+                    env[tgt.id] = val
+                return
+            raise Unknown('unpacking of %r' % (v,))
+        if isinstance(s, ast.For) and not s.orelse and isinstance(s.target, ast.Name) and isinstance(s.iter, (ast.Constant, ast.Tuple, ast.List)):
+            # for marker in '()': a loop over a literal, unrolled
+            seq = s.iter.value if isinstance(s.iter, ast.Constant) else [self.ev(e, env) for e in s.iter.elts]
+            if isinstance(seq, (str, list)) and len(seq) <= 8:
+                for el in seq:
+                    env[s.target.id] = el
+                    try:
+                        self.run(s.body, env)
+                    except Stop as st_:
+                        if st_.kind == 'continue':
+                            continue
+                        if st_.kind == 'break':
+                            break
+                        raise
+                return
         if isinstance(s, ast.Assign) and len(s.targets) == 1 and isinstance(s.targets[0], ast.Name):
             name = s.targets[0].id
             try:
